@@ -57,7 +57,7 @@ func (it *Item) ValueCopy(dst []byte) ([]byte, error) {
 		}
 		var vp kv.ValuePtr
 		vp.Decode(val)
-		fetched, cb, err := it.vlog.read(&vp)
+		fetched, cb, err := it.vlog.readOf(kv.InternalKey(it.e.CF, it.e.Key, it.e.Version), &vp)
 		if cb != nil {
 			defer kv.RunCallback(cb)
 		}
@@ -284,7 +284,7 @@ func (iter *DBIterator) materialize(src *kv.Entry) bool {
 		} else {
 			var vp kv.ValuePtr
 			vp.Decode(src.Value)
-			val, cb, err := iter.vlog.read(&vp)
+			val, cb, err := iter.vlog.readOf(src.Key, &vp)
 			if cb != nil {
 				defer kv.RunCallback(cb)
 			}
